@@ -69,9 +69,21 @@ func main() {
 	}
 }
 
+// kept: the executor a request asked to keep alive for the next one.
+var kept struct {
+	exec gengo.Executor
+	args *gengo.GeneratorArgs
+	root string
+	cwd  string
+}
+
 func serve(req *proto.RunReq) (resp *proto.RunResp) {
 	resp = &proto.RunResp{ID: req.ID}
+	prevFset := simrt.CurrentFileSet()
 	simrt.Reset(req.Sched)
+	if req.ReuseExecutor && kept.exec != nil && prevFset != nil {
+		simrt.FileSet(prevFset, "kept-executor") // positions of the kept universe stay resolvable
+	}
 	rec.reset(req)
 	defer func() {
 		rec.stop()
@@ -146,13 +158,29 @@ func serve(req *proto.RunReq) (resp *proto.RunResp) {
 		}
 	}
 	rec.start()
-	c, err := gengo.NewContext(args)
-	if err != nil {
-		resp.LoadErr = err.Error()
-		if resp.LoadErr == "" {
-			resp.LoadErr = "error"
+	var c gengo.Executor
+	if req.ReuseExecutor && kept.exec != nil && kept.root == req.Root && kept.cwd == cwd {
+		// the executor of the previous request: the caller changes its arguments in place and runs again
+		*kept.args = *args
+		args = kept.args
+		c = kept.exec
+		resp.ReusedExecutor = true
+	} else {
+		kept.exec = nil
+		var err error
+		c, err = gengo.NewContext(args)
+		if err != nil {
+			resp.LoadErr = err.Error()
+			if resp.LoadErr == "" {
+				resp.LoadErr = "error"
+			}
+			return
 		}
-		return
+	}
+	if req.KeepExecutor {
+		kept.exec, kept.args, kept.root, kept.cwd = c, args, req.Root, cwd
+	} else {
+		kept.exec = nil
 	}
 	if second != nil {
 		rec.stop()
